@@ -748,3 +748,7 @@ PROPS["C04"]["irrelevant"] = {"send": _about_datagrams, "udp": _about_datagrams}
 PROPS["C11"]["irrelevant"] = {"send": _about_datagrams, "slsend": _about_datagrams, "udp": _about_datagrams}
 PROPS["C07"]["irrelevant"] = {"sdr": _about_the_walk}
 PROPS["C17"]["irrelevant"] = {"sdr": _about_the_walk}
+PROPS["C06"]["proofs"] = PROPS["C06"]["proofs"] + ["Bmc.Proofs.EndToEnd.HistoryC06"]
+PROPS["C06"]["claim"] += (" HISTORY FORM, in-session (Proofs/EndToEnd/HistoryC06.lean): generated_history_requests_parse — every datagram SendCommand AS TRANSLATED hands to the transport over any history of a session opens (wrapper, "
+                          "decryption) to message bytes that the REFERENCE parser, written from the specification's tables, reads as: responder 20h, the command's NetFn and LUN, requester 81h, its number, its group-extension / OEM prefix, "
+                          "and exactly the caller's request data.")
